@@ -42,7 +42,7 @@ package runner
 //@   prop C13
 //@   requires policyTree != nil && globalPolicies != nil && polValues() && polOwn()
 //@   modifies asrc, apos
-//@   ensures[endpoint-remedies-only-for-declared-method-and-pattern] forall(r, 0, len(result), result[r].Scope == utils.ScopeEndpoint ==> best(pdecl, url) != "" && in(urltree.Method(methodStr), *pval[best(pdecl, url)]) && (*pval[best(pdecl, url)])[urltree.Method(methodStr)].URL == best(pdecl, url) && result[r].Method == methodStr && exists(i, 0, len((*pval[best(pdecl, url)])[urltree.Method(methodStr)].Remedies), (*pval[best(pdecl, url)])[urltree.Method(methodStr)].Remedies[i].Enabled && result[r].Remedy == &(*pval[best(pdecl, url)])[urltree.Method(methodStr)].Remedies[i]))
+//@   ensures[endpoint-remedies-only-for-declared-method-and-pattern] forall(r, 0, len(result), result[r].Scope == utils.ScopeEndpoint ==> best(pdecl, url) != "" && in(urltree.Method(methodStr), *pval[best(pdecl, url)]) && pkey((*pval[best(pdecl, url)])[urltree.Method(methodStr)].URL) == best(pdecl, url) && result[r].Method == methodStr && exists(i, 0, len((*pval[best(pdecl, url)])[urltree.Method(methodStr)].Remedies), (*pval[best(pdecl, url)])[urltree.Method(methodStr)].Remedies[i].Enabled && result[r].Remedy == &(*pval[best(pdecl, url)])[urltree.Method(methodStr)].Remedies[i]))
 //@   ensures[every-enabled-endpoint-remedy] best(pdecl, url) != "" && in(urltree.Method(methodStr), *pval[best(pdecl, url)]) ==> forall(i, 0, len((*pval[best(pdecl, url)])[urltree.Method(methodStr)].Remedies), (*pval[best(pdecl, url)])[urltree.Method(methodStr)].Remedies[i].Enabled ==> exists(r, 0, len(result), result[r].Remedy == &(*pval[best(pdecl, url)])[urltree.Method(methodStr)].Remedies[i]))
 
 //@ func shouldDiagnose
